@@ -269,6 +269,11 @@ def build(run):
             ("rhs", lambda: (f * v1 + dot(ufl.as_vector([f, 1]), v0)) * dx, 1),
             ("buoyancy (list tensor with a zero entry)", lambda: (inner(u0, v0) + 3 * u1 * inner(ufl.as_vector([0, 1]), v0) + 5 * u1 * v1) * dx, 2),
             ("rhs with a unit vector", lambda: (f * dot(ufl.as_vector([0, 1]), v0) + v1) * dx, 1),
+            # interior facets: restrictions, jumps and averages wrapping SUMS over several parts (the splitter zeroes the other parts inside the restriction)
+            ("interior facet: separate restrictions", lambda: u1("+") * v1("-") * dS + u0[0]("+") * v1("+") * dS + jump(u1) * avg(v0[1]) * dS, 2),
+            ("interior facet: restricted sum of parts", lambda: (u0[0] + u1)("+") * v1("+") * dS + (u0[1] - u1)("-") * (v0[0] + v1)("+") * dS, 2),
+            ("interior facet: jump and avg of sums of parts", lambda: jump(u0[0] + u1) * avg(v0[1] - v1) * dS, 2),
+            ("interior facet rhs: restricted sum of test parts", lambda: (f * (v0[0] + v1))("+") * dS + avg(f) * jump(v0[1] + v1) * dS, 1),
         ]
         for fname, mkF, arity in forms:
             idx = list(itertools.product(range(2), repeat=2)) if arity == 2 else [(0, None), (1, None)]
